@@ -476,6 +476,10 @@ def simple_return(callee):
     """The expression a *simple helper* returns, over its own parameters: the body is straight-line
     (assignments to names, then one return). -> expr or None"""
     body = [x for x in callee.node.body if not (isinstance(x, ast.Expr) and isinstance(x.value, ast.Constant))]
+    if body and isinstance(body[0], ast.If) or (len(body) > 1 and any(isinstance(x, ast.If) for x in body)):
+        e = _branching_return(body)
+        if e is not None:
+            return e
     if not body or not isinstance(body[-1], ast.Return) or body[-1].value is None:
         return None
     for x in body[:-1]:
@@ -485,6 +489,28 @@ def simple_return(callee):
         return None
     cv = view_of(callee)
     return cv.expand(body[-1].value, body[-1], inline=True)
+
+
+def _branching_return(stmts):
+    """`if c: return a  [elif ..]  ...  return z` over parameters only (no assignments, loops, calls with
+    effects) -> nested conditional expression, else None"""
+    if not stmts:
+        return None
+    st = stmts[0]
+    if isinstance(st, ast.Return) and st.value is not None and len(stmts) == 1:
+        return st.value
+    if isinstance(st, ast.If):
+        a = _branching_return(st.body)
+        if a is None:
+            return None
+        rest = st.orelse if st.orelse else stmts[1:]
+        if st.orelse and len(stmts) > 1:
+            return None
+        b = _branching_return(rest)
+        if b is None:
+            return None
+        return ast.IfExp(test=st.test, body=a, orelse=b)
+    return None
 
 
 def inline_simple_call(view, orig_call, expanded_call):
@@ -501,8 +527,6 @@ def inline_simple_call(view, orig_call, expanded_call):
         return None
     callee, kind, args, kws = r
     if callee.where in NO_INLINE or callee.name.startswith('validate_') or callee is view.f:
-        return None
-    if not (callee.module is view.f.module or callee.outer is not None or callee.name.startswith('_')):
         return None
     # only helpers, never the documented building blocks rules match by name
     if callee.name in ('get_prefix_length', 'get_size_lower_bound', 'get_size_upper_bound', 'get_overlap_threshold',
